@@ -274,9 +274,9 @@ def gen_serial(rng):
 def sh_argv(script, shell="/bin/sh"):
     return [shell.encode(), b"-c", script.encode() if isinstance(script, str) else script]
 
-def proc_job(argv, inherit=True, control=False, interruptible=True, reqenv=()):
+def proc_job(argv, inherit=True, control=False, interruptible=True, reqenv=(), mark=None):
     env = ";".join("%s=%s" % (hx(k), hx(v)) for k, v in reqenv) if reqenv else "."
-    return "%d%d%d:%s:%s" % (inherit, control, interruptible, env, ",".join(hx(a) for a in argv))
+    return "%d%d%d:%s:%s" % (inherit, control, interruptible, env, ",".join(hx(a) for a in argv)) + ((":" + hx(mark.encode())) if mark else "")
 
 def proc_line(lanes, cancel, base, jobs):
     b = "environ" if base is None else ("." if not base else ",".join(hx(x) for x in base))
@@ -294,18 +294,6 @@ def parse_proc(ans):
 def pattern(n):
     unit = b"0123456789abcdef\n"
     return (unit * (n // len(unit) + 1))[:n]
-
-def gone(pid):
-    if pid <= 1:
-        return False
-    try:
-        os.kill(pid, 0)
-    except ProcessLookupError:
-        return True
-    except PermissionError:
-        return False
-    # exists: a zombie of ours would show state Z
-    return False
 
 def run_children(chk, drv, model, tmp):
     E = drv_env()
@@ -390,7 +378,7 @@ def run_children(chk, drv, model, tmp):
                 if x: return x
                 if int(r["exit"]) & 0x7f not in (2, 9):
                     return ("cancel-not-signalled", "running child %d ended with raw status %s after cancellation" % (i, r["exit"]))
-                if not gone(int(r["pid"])):
+                if r["alive"] != "0":
                     return ("child-not-reaped", "child %s still exists after the queue was destroyed" % r["pid"])
             else:
                 x = std(r, "Cancelled", None, b"", spawned="0")
@@ -404,7 +392,7 @@ def run_children(chk, drv, model, tmp):
         for r in rs:
             x = std(r, "Cancelled", 9, None)
             if x: return x
-            if not gone(int(r["pid"])):
+            if r["alive"] != "0":
                 return ("child-not-reaped", "child %s still exists after the queue was destroyed" % r["pid"])
         return None
     expect("cancel-escalate", proc_line(2, 20000, None, [proc_job(sh_argv("trap '' INT; sleep 30")), proc_job(sh_argv("sleep 30"), interruptible=False)]), chk_kill)
@@ -423,7 +411,7 @@ def run_children(chk, drv, model, tmp):
                 want = "Succeeded" if raw == 0 else "Cancelled" if (raw & 0x7f) in (2, 9) else "Failed"
                 if r["status"] != want or (raw != 0 and (raw & 0x7f) not in (2, 9)):
                     return ("status-not-fate", "job %d: raw status %d reported as %s" % (i, raw, r["status"]))
-                if not gone(int(r["pid"])):
+                if r["alive"] != "0":
                     return ("child-not-reaped", "child %s still exists after the queue was destroyed" % r["pid"])
         return None
     for k in range(chk.n(8, 60)):
@@ -432,6 +420,42 @@ def run_children(chk, drv, model, tmp):
         cancel = chk.rng.choice([0, 0, 200, 1000, 3000, 8000, 20000])
         expect("cancel-race-%d" % k, proc_line(lanes, cancel, None, [proc_job(sh_argv(chk.rng.choice(["exit 0", "sleep 0.01", "sleep 0.003; exit 0", "echo x; sleep 0.02"])),
                                                                         control=chk.rng.random() < 0.5) for _ in range(njobs)]), chk_race)
+
+    # A client's ordinary signal handler (no SA_RESTART) must not change any child's fate: SIGUSR1 is sent every 2 ms to the
+    # thread executing the job, from processStarted to the completion callback.  The interesting child closes its
+    # descriptors early and runs on, so that thread sits blocked in wait4() when the signals arrive (EINTR must be retried).
+    def storm_jobs(tag, with_bash):
+        mk = lambda i: os.path.join(tmp, "storm-%s-%d" % (tag, i))
+        js = [(proc_job(sh_argv("exec >&- 2>&-; sleep 0.5; : > %s; exit 0" % mk(0)), mark=mk(0)), "Succeeded", lambda raw: raw == 0, b"", True),
+              (proc_job(sh_argv("exec >&- 2>&-; sleep 0.2; : > %s; exit 3" % mk(1)), mark=mk(1)), "Failed", lambda raw: raw == 3 << 8, b"", True),
+              (proc_job(sh_argv("exec >&- 2>&-; sleep 0.2; : > %s; kill -TERM $$" % mk(2)), mark=mk(2)), "Failed", lambda raw: raw & 0x7f == 15, b"", True),
+              (proc_job(sh_argv("yes 0123456789abcdef | head -c 100000")), "Succeeded", lambda raw: raw == 0, pattern(100000), False)]
+        if with_bash:
+            js.append((proc_job(sh_argv("echo hi; exec >&- 2>&-; eval \"exec $LLBUILD_CONTROL_FD>&-\"; sleep 0.4; : > %s; exit 0" % mk(4), "/bin/bash"), control=True, mark=mk(4)),
+                       "Succeeded", lambda raw: raw == 0, b"hi\n", True))
+        return js
+    def chk_storm(js):
+        def f(rs):
+            if len(rs) != len(js):
+                return ("proc-driver-answer", "expected %d job results, got %d" % (len(js), len(rs)))
+            for i, (r, (_, status, rawok, out_, marked)) in enumerate(zip(rs, js)):
+                x = std(r, status, None, out_)
+                if x:
+                    return (x[0], "job %d under the signal storm: %s" % (i, x[1]))
+                if not rawok(int(r["exit"])):
+                    return ("status-not-fate", "job %d under the signal storm: raw status %s does not match the child's fate" % (i, r["exit"]))
+                if r["err"] != "-":
+                    return ("process-error", "job %d under the signal storm: processHadError %r" % (i, unhx(r["err"])[:200]))
+                if marked and r["mark"] != "1":
+                    return ("completion-before-exit", "job %d: the completion callback ran before the child had reached its exit (its exit marker file did not exist yet)" % i)
+                if r["alive"] != "0":
+                    return ("child-not-reaped", "job %d: child %s still exists (running or zombie) after the queue was destroyed" % (i, r["pid"]))
+            return None
+        return f
+    jl = storm_jobs("lanes", True)
+    expect("signal-storm-lanes", "pstorm 4 2000 " + " ".join(j[0] for j in jl), chk_storm(jl))
+    js_ = storm_jobs("serial", False)
+    expect("signal-storm-serial", "pstorm serial 2000 " + " ".join(j[0] for j in js_), chk_storm(js_))
 
     lines = [c[1] for c in cases]
     t0 = time.time()
@@ -611,6 +635,8 @@ def run_tsan(chk, tmp):
     groups.append(("lane-release-many", [proc_line(2, -1, None, [proc_job(sh_argv("printf 'llbuild.1\\n%s\\n' \"$LLBUILD_TASK_ID\" >&$LLBUILD_CONTROL_FD; sleep 0.05; echo r", "/bin/bash"), control=True) for _ in range(6)])]))
     groups.append(("cancel-running", [proc_line(2, 20000, None, [proc_job(sh_argv("sleep 30")) for _ in range(5)])]))
     groups.append(("parallel-output", [proc_line(4, -1, None, [proc_job(sh_argv("yes 0123456789abcdef | head -c %d" % n), control=(n % 2 == 0)) for n in (70000, 140000, 99999, 4096)])]))
+    groups.append(("signal-storm", ["pstorm 3 2000 " + " ".join(proc_job(sh_argv(x)) for x in ("exec >&- 2>&-; sleep 0.3; exit 0", "exec >&- 2>&-; sleep 0.1; exit 3", "yes 0123456789abcdef | head -c 70000")),
+                                    "pstorm serial 2000 " + " ".join(proc_job(sh_argv(x)) for x in ("exec >&- 2>&-; sleep 0.2; exit 0", "echo x"))]))
     groups.append(("spawn-errors", [proc_line(3, -1, None, [proc_job([b"/nonexistent/x"]), proc_job(sh_argv("exit 3")), proc_job([b"/etc/passwd"])])]))
     nrep = 0
     for name, lines in groups:
